@@ -864,3 +864,172 @@ func ifaceLocalTypes(pk *packages.Package, fd *ast.FuncDecl, id *ast.Ident, case
 	}
 	return ok, why
 }
+
+// R8PackerWidth — the packer writes every fixed-width integer at its full width.
+func R8PackerWidth(c *Ctx) {
+	const rule = "R8-packer-width"
+	c.R.Rule(rule, "in the packer package every binary.PutUintN writes into a buffer of exactly N/8 bytes, N/8 is the size of the sized integer parameter it encodes (int64→8, int32/uint32→4; platform int and len() are 32-bit on the wire), the value is not narrowed before it is written, and the bookkeeping size grows by the same number of bytes", 5)
+	pk := c.P.SSAPkg[PkgPacker]
+	if pk == nil {
+		c.R.Anchor(rule, "package packer")
+		return
+	}
+	var fns []*ssa.Function
+	for _, fn := range c.P.ModuleFuncs(func(p string) bool { return p == PkgPacker }) {
+		fns = append(fns, fn)
+	}
+	for _, fn := range fns {
+		for _, b := range fn.Blocks {
+			for _, in := range b.Instrs {
+				call, ok := in.(*ssa.Call)
+				if !ok {
+					continue
+				}
+				name := CalleeName(call)
+				if !strings.HasPrefix(name, "(encoding/binary.") || !strings.Contains(name, ").PutUint") {
+					continue
+				}
+				var n int
+				fmt.Sscanf(name[strings.Index(name, ").PutUint")+len(").PutUint"):], "%d", &n)
+				args := CallArgs(call)
+				if n == 0 || len(args) < 2 {
+					continue
+				}
+				want := int64(n / 8)
+				// buffer length
+				blen := int64(-1)
+				switch x := args[0].(type) {
+				case *ssa.Slice:
+					if al, ok := x.X.(*ssa.Alloc); ok {
+						if arr, ok := al.Type().Underlying().(*types.Pointer).Elem().Underlying().(*types.Array); ok && x.Low == nil {
+							blen = arr.Len()
+							if x.High != nil {
+								if k, ok := ConstInt(x.High); ok {
+									blen = k
+								} else {
+									blen = -1
+								}
+							}
+						}
+					}
+				case *ssa.MakeSlice:
+					if k, ok := ConstInt(x.Len); ok {
+						blen = k
+					}
+				}
+				// encoded value
+				why := ""
+				if blen != want {
+					why = "the buffer has " + itoa(int(blen)) + " bytes for a " + itoa(n) + "-bit write"
+				}
+				src := args[1]
+				if cv, ok := src.(*ssa.Convert); ok {
+					src = cv.X
+				}
+				if bt, ok := src.Type().Underlying().(*types.Basic); ok {
+					sz := int64(0)
+					switch bt.Kind() {
+					case types.Int64, types.Uint64:
+						sz = 8
+					case types.Int32, types.Uint32:
+						sz = 4
+					case types.Int16, types.Uint16:
+						sz = 2
+					case types.Int8, types.Uint8:
+						sz = 1
+					case types.Int, types.Uint:
+						sz = 4 // 32-bit on the wire by protocol
+					}
+					if sz != 0 && sz != want && why == "" {
+						why = "a " + bt.Name() + " (" + itoa(int(sz)) + " bytes on the wire) is written with PutUint" + itoa(n) + ": the upper half is lost or the field is short"
+					}
+				}
+				// size bookkeeping: some p.size += K in the function with K == want
+				sizeOK := false
+				for _, b2 := range fn.Blocks {
+					for _, in2 := range b2.Instrs {
+						if st, ok := in2.(*ssa.Store); ok {
+							if _, f, _, ok := FieldOf(st.Addr); ok && f == "size" {
+								if bo, ok := st.Val.(*ssa.BinOp); ok && bo.Op == token.ADD {
+									if k, ok := ConstInt(bo.Y); ok && k == want {
+										sizeOK = true
+									}
+								}
+							}
+						}
+					}
+				}
+				if !sizeOK && why == "" {
+					why = "the packer's size is not advanced by " + itoa(int(want))
+				}
+				construct := "PutUint" + itoa(n) + " of a " + itoa(int(want)) + "-byte field"
+				if why == "" {
+					c.R.Ok(rule, FuncShort(fn), construct, c.pos(call.Pos()), "buffer, value width and size bookkeeping agree", true)
+				} else {
+					c.R.Bad(rule, FuncShort(fn), construct, c.pos(call.Pos()), why)
+				}
+			}
+		}
+	}
+}
+
+// R8CmpWidth — 32-bit identifiers are compared at 32 bits.
+func R8CmpWidth(c *Ctx, floor int) {
+	const rule = "R8-cmp-width"
+	c.R.Rule(rule, "an equality test involving a signed 32-bit identifier field (socket ids, file ids, agent ids kept as int32) compares at 32 bits: the wider operand is narrowed to int32; the field is never sign-extended to int and compared with a wide value that was parsed unsigned (ids ≥ 0x80000000 would never match)", floor)
+	is32 := func(t types.Type) bool {
+		b, ok := t.Underlying().(*types.Basic)
+		return ok && b.Kind() == types.Int32
+	}
+	wide := func(t types.Type) bool {
+		b, ok := t.Underlying().(*types.Basic)
+		return ok && (b.Kind() == types.Int || b.Kind() == types.Int64 || b.Kind() == types.Uint || b.Kind() == types.Uint64)
+	}
+	fieldLoad := func(v ssa.Value) (string, bool) {
+		if u, ok := v.(*ssa.UnOp); ok && u.Op == token.MUL {
+			if t, f, _, ok := FieldOf(u.X); ok {
+				return shortType(t) + "." + f, true
+			}
+		}
+		if t, f, _, ok := FieldOf(v); ok {
+			return shortType(t) + "." + f, true
+		}
+		return "", false
+	}
+	for _, fn := range c.P.ModuleFuncs(NonYaotl) {
+		for _, b := range fn.Blocks {
+			for _, in := range b.Instrs {
+				bo, ok := in.(*ssa.BinOp)
+				if !ok || (bo.Op != token.EQL && bo.Op != token.NEQ) {
+					continue
+				}
+				for _, pair := range [][2]ssa.Value{{bo.X, bo.Y}, {bo.Y, bo.X}} {
+					a, other := pair[0], pair[1]
+					// narrow form: field(int32) == int32(wide)
+					if fl, ok := fieldLoad(a); ok && is32(a.Type()) {
+						if cv, ok := other.(*ssa.Convert); ok && wide(cv.X.Type()) {
+							c.R.Ok(rule, FuncShort(fn), fl+" == int32(wide value)", c.pos(bo.Pos()), "compared at 32 bits", true)
+						}
+						continue
+					}
+					// widened form: int(field int32) == wide value
+					cv, ok := a.(*ssa.Convert)
+					if !ok || !is32(cv.X.Type()) || !wide(cv.Type()) {
+						continue
+					}
+					fl, ok := fieldLoad(cv.X)
+					if !ok {
+						continue
+					}
+					if _, isConst := other.(*ssa.Const); isConst {
+						continue
+					}
+					if ocv, ok := other.(*ssa.Convert); ok && is32(ocv.X.Type()) {
+						continue // both sides sign-extended from int32
+					}
+					c.R.Bad(rule, FuncShort(fn), "int("+fl+") == wide value", c.pos(bo.Pos()), "the int32 field is sign-extended and compared with a wide integer; ids arrive as unsigned 32-bit values widened to int, so every id with the top bit set compares unequal and its socket/file is never found")
+				}
+			}
+		}
+	}
+}
